@@ -19,6 +19,8 @@ CLAIMED = {
          "finite-domain evaluation of extracted expressions (factorial divisibility, range, rejection bound) + guard facts"),
  'C18': ("Static structural check of the oblivious-transfer senders/choosers: frozen guard inventory; exact element check; at every send site all received query elements carry their membership verdict and every pair of z-values was compared (loop nests covering all unordered pairs); every message-dependent value sent depends on randomness sampled where it is computed and different messages use disjoint randomness. Correct decryption and secrecy of the non-chosen messages are not decided.", "§3 C18",
          "must-facts at send sites (guard-before-send), loop-nest pair coverage, randomness-freshness dependence"),
+ 'C17': ("Static ordering/guard analysis of the two-party coin flip: every send whose value exposes the secret share (not hidden under an exponentiation) has, among the must-facts of its program point, the receipt and membership check of every other participant's commitment; the opening of the peer enters the result only after its range checks and the commitment equation; the result is the running sum modulo q. The multi-party variant and equality of the outputs are not decided.", "§3 C17",
+         "typestate/ordering via must-facts at send sites with secrecy taint declassified at exponentiation; frozen guard inventory"),
 }
 NA = {
  'C01': "algebraic identity over runtime group elements for all masking chains; no clause visible in code shape beyond what C03/C05/C08/C12 claim",
